@@ -169,3 +169,9 @@ for p, b in B1_BY_PROP.items():
 # ---- the recorded defects, as found by TLC on the specification (counterexamples of MC_ttl_D* / MC_known_D*) and replayed on the code
 for p in ["C01", "C03", "C05", "C07", "C08", "C09", "C10"]:
     PLANS[p]["fixed"] = {"quick": ["scenarios/known.ndjson"], "thorough": ["scenarios/known.ndjson"]}
+
+# C14 at system level: the estimates admission really uses (truth) against the accesses delivered through buffers, channel and consumer
+def with_spec(bs, spec):
+    return [dict(b, trace_spec=spec) for b in bs]
+PLANS["C14"]["profiles"] = {"quick": with_spec(profs([("pressure", 10), ("fill", 8), ("reads", 5)], 2), "TraceCacheD"),
+                            "thorough": with_spec(profs([("pressure", 10), ("fill", 8), ("reads", 5)], 14), "TraceCacheD")}
